@@ -18,14 +18,16 @@ use vfs::VfsPath;
 pub struct Case {
     pub base: HistCase,
     pub scripts: Vec<Vec<ROp>>,
+    pub wscripts: Vec<Vec<WOp>>,
 }
 
 fn strategy() -> impl Strategy<Value = Case> {
     (
         hist_strategy(Just(Cfg::Mem).boxed(), 40, 0),
         proptest::collection::vec(proptest::collection::vec(rop_strategy(), 1..12), 0..4),
+        proptest::collection::vec(proptest::collection::vec(wop_strategy(), 1..10), 0..4),
     )
-        .prop_map(|(base, scripts)| Case { base, scripts })
+        .prop_map(|(base, scripts, wscripts)| Case { base, scripts, wscripts })
 }
 
 fn read_full(h: &mut dyn ReadSeek, want: usize) -> Result<Vec<u8>, String> {
@@ -59,7 +61,7 @@ fn diff_script(m: &VfsPath, p: &VfsPath, path: &str, len: u64, script: &[ROp], t
                     (a, b) => return Err(format!("read handle of '{}': seek({:?}) gives {:?} on MemoryFS but {:?} on PhysicalFS", path, sf, a.map_err(|e| e.to_string()), b.map_err(|e| e.to_string()))),
                 }
             }
-            ROp::ReadToEnd => {
+            ROp::ReadToEnd(_) => {
                 let (mut va, mut vb) = (vec![], vec![]);
                 let a = std::io::Read::read_to_end(&mut hm, &mut va);
                 let b = std::io::Read::read_to_end(&mut hp, &mut vb);
@@ -86,6 +88,86 @@ fn diff_script(m: &VfsPath, p: &VfsPath, path: &str, len: u64, script: &[ROp], t
         }
     }
     Ok(())
+}
+
+/// one write session (create_file or append_file handle) with the same script on both backends:
+/// every call has the same outcome (seek positions included), after every flush and after the
+/// drop both backends show the same tree. A cursor only steers the generated seek targets.
+fn diff_write_session(m: &VfsPath, p: &VfsPath, path: &str, initial: &[u8], append: bool, script: &[WOp], uni: &[String], trace: &mut Vec<String>) -> Result<(), String> {
+    use std::io::Write;
+    let (pm, pp) = (at(m, path).map_err(|e| e.to_string())?, at(p, path).map_err(|e| e.to_string())?);
+    let (hm, hp) = if append { (pm.append_file(), pp.append_file()) } else { (pm.create_file(), pp.create_file()) };
+    let what = if append { "append_file" } else { "create_file" };
+    let (mut hm, mut hp) = match (hm, hp) {
+        (Ok(a), Ok(b)) => (a, b),
+        (Err(_), Err(_)) => return Ok(()),
+        (a, b) => return Err(format!("{}('{}') handle: MemoryFS {} but PhysicalFS {}", what, path, if a.is_ok() { "opens" } else { "fails" }, if b.is_ok() { "opens" } else { "fails" })),
+    };
+    let mut steer = std::io::Cursor::new(if append { initial.to_vec() } else { vec![] });
+    if append {
+        steer.set_position(initial.len() as u64);
+    }
+    let same_trees = |when: &str| -> Result<(), String> {
+        let sa = full_snapshot(m, uni);
+        let sb = full_snapshot(p, uni);
+        if sa.tree != sb.tree {
+            return Err(format!("{} session on '{}', {}: the observable trees differ (PhysicalFS relative to MemoryFS): {:?}", what, path, when, diff_trees(&sa.tree, &sb.tree)));
+        }
+        Ok(())
+    };
+    for op in script {
+        match op {
+            WOp::Write(d) => {
+                let bytes = make_bytes(d);
+                if bytes.is_empty() {
+                    continue;
+                }
+                let (a, b) = (hm.write_all(&bytes), hp.write_all(&bytes));
+                trace.push(format!("  session write({} bytes) -> mem {:?} / phys {:?}", bytes.len(), a.as_ref().map_err(|e| e.kind()), b.as_ref().map_err(|e| e.kind())));
+                if a.is_ok() != b.is_ok() {
+                    return Err(format!("{} session on '{}': write of {} bytes {} on MemoryFS but {} on PhysicalFS", what, path, bytes.len(), if a.is_ok() { "succeeds" } else { "fails" }, if b.is_ok() { "succeeds" } else { "fails" }));
+                }
+                if append {
+                    steer.set_position(steer.get_ref().len() as u64);
+                }
+                let _ = steer.write_all(&bytes);
+            }
+            WOp::Seek(w, o) => {
+                // seeking an append handle is left to C14's own oracle
+                if append {
+                    continue;
+                }
+                let sf = seek_from(w, o, steer.get_ref().len() as u64, false, Some(WRITE_SEEK_BOUND));
+                let before = steer.position();
+                match steer.seek(sf) {
+                    Ok(pos) if pos > WRITE_SEEK_BOUND => {
+                        steer.set_position(before);
+                        continue;
+                    }
+                    _ => {}
+                }
+                let (a, b) = (hm.seek(sf), hp.seek(sf));
+                trace.push(format!("  session seek({:?}) -> mem {:?} / phys {:?}", sf, a.as_ref().map_err(|e| e.kind()), b.as_ref().map_err(|e| e.kind())));
+                match (a, b) {
+                    (Ok(x), Ok(y)) if x != y => return Err(format!("{} session on '{}': seek({:?}) returns {} on MemoryFS but {} on PhysicalFS", what, path, sf, x, y)),
+                    (Ok(_), Err(e)) => return Err(format!("{} session on '{}': seek({:?}) succeeds on MemoryFS but fails on PhysicalFS ({})", what, path, sf, e)),
+                    (Err(e), Ok(_)) => return Err(format!("{} session on '{}': seek({:?}) fails on MemoryFS ({}) but succeeds on PhysicalFS", what, path, sf, e)),
+                    _ => {}
+                }
+            }
+            WOp::Flush => {
+                let (a, b) = (hm.flush(), hp.flush());
+                trace.push(format!("  session flush -> mem {:?} / phys {:?}", a.as_ref().map_err(|e| e.kind()), b.as_ref().map_err(|e| e.kind())));
+                if a.is_ok() != b.is_ok() {
+                    return Err(format!("{} session on '{}': flush outcome differs", what, path));
+                }
+                same_trees("after flush with the handle still open")?;
+            }
+        }
+    }
+    drop(hm);
+    drop(hp);
+    same_trees("after the handle was dropped")
 }
 
 fn compare(op: &Op, shadow: &Tree, a: &Outcome, b: &Outcome) -> Result<(), String> {
@@ -138,12 +220,14 @@ fn test(case: &Case, st: &mut Stats, counting: bool) -> CaseResult {
     let ctx = Ctx { pool: &pool, depth, uni: &uni };
     let mut trace: Vec<String> = vec![];
     let mut facts = (0usize, 0usize, 0usize, 0usize, 0usize); // wrong-typed, overwrites/recreations, big, nonutf8, scripts
+    let mut wsessions = 0usize;
     let r = guarded(|| -> Result<(), (usize, String)> {
         let mem = build(&Cfg::Mem, &vec![]).map_err(|e| (0, e))?;
         let phys = build(&Cfg::Phys, &vec![]).map_err(|e| (0, e))?;
         let mut shadow = Tree::new();
         let mut ever: std::collections::BTreeSet<String> = Default::default();
         let mut script_i = 0usize;
+        let mut wscript_i = 0usize;
         for (i, raw) in case.base.ops.iter().enumerate() {
             let step = i + 1;
             let op = resolve(raw, &shadow, &ctx, Profile::Typed, false);
@@ -206,12 +290,30 @@ fn test(case: &Case, st: &mut Stats, counting: bool) -> CaseResult {
                     facts.4 += 1;
                 }
             }
+            // ... and a write session (create or append handle, several writes / seeks / flushes)
+            if raw.mode2 % 4 == 1 && wscript_i < case.wscripts.len() {
+                let files = shadow.files();
+                if !files.is_empty() {
+                    let f = files[crate::util::idx(raw.c, files.len())].clone();
+                    let initial = match shadow.get(&f) {
+                        Some(Node::File(b)) => b.to_vec(),
+                        _ => vec![],
+                    };
+                    let append = raw.mode % 2 == 0;
+                    trace.push(format!("{} session on '{}' (len {})", if append { "append_file" } else { "create_file" }, f, initial.len()));
+                    diff_write_session(&mem.root, &phys.root, &f, &initial, append, &case.wscripts[wscript_i], &uni, &mut trace).map_err(|m| (step, m))?;
+                    wscript_i += 1;
+                    wsessions += 1;
+                    shadow = full_snapshot(&mem.root, &uni).tree;
+                    ever.extend(shadow.m.keys().cloned());
+                }
+            }
         }
         Ok(())
     });
     let mk = |step: usize, msg: String| Failure {
         message: format!("step {}: {}\n  trace:\n    {}", step, msg, trace.join("\n    ")),
-        replay: json!({"kind": "c02", "case": case.base.to_json(), "scripts": case.scripts.iter().map(|s| rops_to_json(s)).collect::<Vec<_>>(), "failing_step": step}),
+        replay: json!({"kind": "c02", "case": case.base.to_json(), "scripts": case.scripts.iter().map(|s| rops_to_json(s)).collect::<Vec<_>>(), "wscripts": case.wscripts.iter().map(|s| wops_to_json(s)).collect::<Vec<_>>(), "failing_step": step}),
     };
     match r {
         Err(p) => Err(mk(0, format!("PANIC: {}", p))),
@@ -225,6 +327,7 @@ fn test(case: &Case, st: &mut Stats, counting: bool) -> CaseResult {
                 st.label_n("contents>=8KiB", facts.2 as u64);
                 st.label_n("contents_non_utf8", facts.3 as u64);
                 st.label_n("read_scripts", facts.4 as u64);
+                st.label_n("write_sessions", wsessions as u64);
                 for c in pool_class(&pool) {
                     st.label(&format!("pool:{}", c));
                 }
@@ -242,10 +345,11 @@ pub fn replay(v: &Value) -> CaseResult {
     let base = HistCase::from_json(v.get("case").unwrap_or(&Value::Null)).ok_or_else(|| Failure { message: "unparsable C02 replay".into(), replay: v.clone() })?;
     let scripts = v.get("scripts").and_then(|s| s.as_array()).map(|a| a.iter().map(rops_from_json).collect()).unwrap_or_default();
     let mut st = Stats::default();
-    test(&Case { base, scripts }, &mut st, false)
+    let wscripts = v.get("wscripts").and_then(|s| s.as_array()).map(|a| a.iter().map(wops_from_json).collect()).unwrap_or_default();
+    test(&Case { base, scripts, wscripts }, &mut st, false)
 }
 
-const RULE: &str = "typed C01 histories vec(op,0..=40) (wrong-typed calls, overwrites, re-creations, contents up to 70 KiB incl. non-UTF-8, names accepted by the host up to 255 bytes) executed in lock-step on an empty MemoryFS and an empty PhysicalFS, selectors resolved against the memory side's observed tree; per call: same Ok/Err, equal values, same already-exists class, same not-found class for a target missing from an existing directory; after every call identical full snapshots (types, names, bytes, lengths, universe probes); read scripts with seeks past EOF run on both read handles and compared call by call; the model only steers generation; non-trivial = history with a wrong-typed call or an overwrite/re-creation and a content >= 8 KiB or non-UTF-8";
+const RULE: &str = "typed C01 histories vec(op,0..=40) (wrong-typed calls, overwrites, re-creations, contents up to 70 KiB incl. non-UTF-8, names accepted by the host up to 255 bytes) executed in lock-step on an empty MemoryFS and an empty PhysicalFS, selectors resolved against the memory side's observed tree; per call: same Ok/Err, equal values, same already-exists class, same not-found class for a target missing from an existing directory; after every call identical full snapshots (types, names, bytes, lengths, universe probes); read scripts with seeks past EOF run on both read handles and compared call by call; write sessions (create_file or append_file handle on an existing file; writes, seeks incl. past the end, flushes) run on both write handles: same outcome and seek position per call, identical trees after every flush with the handle still open and after the drop; the model only steers generation; non-trivial = history with a wrong-typed call or an overwrite/re-creation and a content >= 8 KiB or non-UTF-8";
 
 pub fn run(ctx: &RunCtx) -> i32 {
     let reg = crate::regress::run_for(&ctx.id, &replay);
@@ -256,5 +360,5 @@ pub fn run(ctx: &RunCtx) -> i32 {
     }
     let (stats, failure) = run_sharded(ctx, "lockstep", ctx.tier.pick(5000, 200_000), strategy, test);
     write_evidence(ctx, "exploration", RULE, &stats, json!({"regress_replayed": reg.replayed}), &["Linux, scratch filesystem tmpfs/ext4", "timestamps, message texts and other I/O error kinds are excluded by the property", "no seeks on append handles (O_APPEND differs by design)"], failure.is_some() as u32);
-    finish(ctx, &stats, &failure, &[("distinct_nontrivial", 100), ("wrong_typed_calls", 200), ("read_scripts", 50)])
+    finish(ctx, &stats, &failure, &[("distinct_nontrivial", 100), ("wrong_typed_calls", 200), ("read_scripts", 50), ("write_sessions", 50)])
 }
